@@ -68,6 +68,9 @@ def cfgs(tier, seed):
         out.append(dict(base, sweeper='imex_1st_order', qd='IE', prob='dahlquist', n=2, M=[2, 1], NP=1, maxiter=3, predict=None))
         out.append(dict(base, sweeper='generic_implicit', qd='LU', prob='dahlquist', n=1, M=[3], NP=1, maxiter=3))
         out.append(dict(base, sweeper='explicit', qd='EE', prob='dahlquist', n=1, M=[2], NP=1, maxiter=5))
+        # relative residual with a left end node (the first node's residual is identically zero there)
+        out.append(dict(base, sweeper='generic_implicit', qd='LU', prob='dahlquist', n=1, M=[3], NP=1, maxiter=5, quad_type='LOBATTO', residual_type='full_rel', initial_guess='zero'))
+        out.append(dict(base, sweeper='generic_implicit', qd='LU', prob='dahlquist', n=1, M=[2], NP=2, maxiter=5, quad_type='RADAU-LEFT', residual_type='full_rel', jac=False))
         # end value by quadrature (no right end node) for the other sweepers too
         out.append(dict(base, sweeper='explicit', qd='EE', prob='dahlquist', n=1, M=[2], NP=1, maxiter=6, quad_type='GAUSS'))
         out.append(dict(base, sweeper='explicit', qd='EE', prob='dahlquist', n=1, M=[2], NP=2, maxiter=6, quad_type='RADAU-LEFT', jac=False))
